@@ -2,6 +2,7 @@
   Helper lemmas for C07 (sumdb/note): the signature loop of Open.
 -/
 import ModVerif.Model.Note
+import ModVerif.Spec.NoteSpec
 namespace ModVerif.Note
 open ModVerif ModVerif.B64
 
@@ -307,5 +308,47 @@ theorem openLoop_bad_fails {known : Verifiers} {text : Bytes} :
           · rw [hs]
             simp only [List.mem_cons, not_or]
             exact ⟨fun e => hne e.symm, hseen⟩
+
+/-- the partition computed by the loop, relative to its state -/
+theorem openLoop_partition {known : Verifiers} {text : Bytes} :
+    ∀ (ls : List Bytes) (st st' : LoopState), openLoop known text ls st = .ok st' →
+      ∃ ps, parseAll ls = some ps ∧ ps.length ≤ maxSigs - st.numSig ∧
+        (∀ p ∈ ps, isKnown known p = true ∨ isUnknown known p = true) ∧
+        st'.sigs = st.sigs ++
+          (dedupFrom (fun p : SigLine => (p.name, p.hash)) st.seen (ps.filter (isKnown known))).map SigLine.toSig ∧
+        st'.unverifiedSigs = st.unverifiedSigs ++
+          (dedupFrom (fun p : SigLine => p.line) st.seenUnverified (ps.filter (isUnknown known))).map SigLine.toSig := by
+  intro ls
+  induction ls with
+  | nil =>
+    intro st st' h
+    simp only [openLoop, Except.ok.injEq] at h; subst h
+    exact ⟨[], rfl, by simp, by simp, by simp [dedupFrom], by simp [dedupFrom]⟩
+  | cons line rest ih =>
+    intro st st' h
+    obtain ⟨st1, h1, h2⟩ := openLoop_cons_ok h
+    obtain ⟨ps, hps, hlen, hall, hsigs, hunv⟩ := ih st1 st' h2
+    obtain ⟨p, hp, hn, hn1, hcase⟩ := openStep_ok h1
+    refine ⟨p :: ps, by simp [parseAll, hp, hps], by simp only [List.length_cons]; omega, ?_, ?_, ?_⟩
+    · intro q hq
+      rcases List.mem_cons.mp hq with rfl | hq
+      · rcases hcase with ⟨hu, _⟩ | ⟨v, hv, _⟩
+        · right; simp [isUnknown, hu]
+        · left; simp [isKnown, hv]
+      · exact hall q hq
+    · rcases hcase with ⟨hu, hseen, hs, _⟩ | ⟨v, hv, _, _, _, _, hcase⟩
+      · have hk : isKnown known p = false := by simp [isKnown, hu]
+        rw [hsigs, hs, hseen]; simp [hk]
+      · have hk : isKnown known p = true := by simp [isKnown, hv]
+        rcases hcase with ⟨hin, hseen, hs⟩ | ⟨hnin, _, hseen, hs⟩
+        · rw [hsigs, hs, hseen]; simp [hk, dedupFrom, hin]
+        · rw [hsigs, hs, hseen]; simp [hk, dedupFrom, hnin]
+    · rcases hcase with ⟨hu, _, _, hcase⟩ | ⟨v, hv, _, _, hseen, hs, _⟩
+      · have hk : isUnknown known p = true := by simp [isUnknown, hu]
+        rcases hcase with ⟨hin, hseen, hs⟩ | ⟨hnin, hseen, hs⟩
+        · rw [hunv, hs, hseen]; simp [hk, dedupFrom, hin]
+        · rw [hunv, hs, hseen]; simp [hk, dedupFrom, hnin]
+      · have hk : isUnknown known p = false := by simp [isUnknown, hv]
+        rw [hunv, hs, hseen]; simp [hk]
 
 end ModVerif.Note
